@@ -283,7 +283,8 @@ def run_history(seq):
             for i, q in enumerate(seq):
                 # WeatherCache.tla: the instant lies anywhere inside its hour (Minutes) - the hour it belongs to is the one
                 # that has begun, also at a quarter to the next one
-                mm = (0, 45, 29, 59, 30)[(i + q['d'] + q['h'] + len(seq)) % 5]
+                # (the minute is a function of day and hour within a history: a request that is repeated is the same instant)
+                mm = (0, 45, 29, 59, 30)[(3 * q['d'] + q['h'] + len(seq)) % 5]
                 when = pd.Timestamp(f'2024-09-0{q["d"]}T{q["h"]:02d}:{mm:02d}:00', tz='UTC')
                 prev = [(x['d'], x['h']) for x in seq[:i]]
                 try:
